@@ -38,7 +38,7 @@ def shim_zeros(*size, dtype=None, device=None, **kw):
 
 class BanditStep(Case):
     stubs = ("actor = stub: per-arm outputs mu_k are symbols, mu_k.backward() deposits the symbolic gradient of arm k in the stub output layer's parameters",
-             "optimizer = recorder; numpy.ma arg-max via the stand-in with numpy's documented semantics; torch.normal (TS) -> arbitrary reals",
+             "optimizer = stand-in whose zero_grad() clears the stub layer's gradient; backward() accumulates into it, and it starts with ARBITRARY stale gradients (as left by an earlier learn()); numpy.ma arg-max via the stand-in with numpy's documented semantics; torch.normal (TS) -> arbitrary reals",
              "sqrt uninterpreted with sqrt(x) >= 0 and sqrt(x)^2 = x for x >= 0")
     assumptions = ("the stored matrix S is symmetric; g_k^T S g_k >= 0 (true for PSD S); the Sherman-Morrison identity is claimed where 1 + v^T S v != 0 (always for PSD S)",
                    "mask entries 0/1 with at least one legal arm")
@@ -108,8 +108,26 @@ class BanditStep(Case):
                 self.k = k
 
             def backward(self, retain_graph=False):
-                w.grad = v.const_tensor(np.zeros(d)) if False else (mk(np.array(G[self.k], dtype=object), torch.float32) if v.mode != "real"
-                                                                    else torch.tensor([float(x) for x in G[self.k]], dtype=torch.float32))
+                g = (mk(np.array(G[self.k], dtype=object), torch.float32) if v.mode != "real"
+                     else torch.tensor([float(x) for x in G[self.k]], dtype=torch.float32))
+                w.grad = g if w.grad is None else w.grad + g          # autograd ACCUMULATES into .grad
+
+        class Opt:
+            """optimizer stand-in: zero_grad() clears the gradients of the parameters it optimises"""
+
+            def __init__(self):
+                self.calls = []
+
+            def zero_grad(self, *a, **k):
+                self.calls.append("zero_grad")
+                w.grad = None
+
+            def step(self, *a, **k):
+                self.calls.append("step")
+
+        # gradients left behind by an earlier learn() step: arbitrary (every history)
+        STALE = [v.real(f"stale_grad{j}") for j in range(d)]
+        w.grad = (mk(np.array(STALE, dtype=object), torch.float32) if v.mode != "real" else torch.tensor([float(x) for x in STALE], dtype=torch.float32))
 
         calls = []
 
@@ -149,7 +167,7 @@ class BanditStep(Case):
                 except Exception as ex:   # noqa: BLE001
                     raise HarnessError(f"clone() failed on an agent with a proxy matrix: {type(ex).__name__}: {ex}")
         patches = [(agent, "actor", Actor()), (agent, "exp_layer", ExpLayer()), (agent, "sigma_inv", S0), (agent, "numel", d), (agent, "gamma", gamma),
-                   (agent, "optimizer", Recorder()), (agent, "training", self.training)]
+                   (agent, "optimizer", Opt()), (agent, "training", self.training)]
         ov = {"normal": normal}
         if v.mode != "real":
             ov["zeros"] = shim_zeros
